@@ -99,7 +99,7 @@ class Conn(object):
     def __init__(self, w):
         self.w = w
 
-    def poll(self, t):
+    def poll(self, t=None):
         r = core.choice(2) == 0
         self.w.log.append(('poll', r))
         return r
